@@ -80,6 +80,347 @@ def _coercion_call(node: ast.expr, var: str, ob: str) -> str:
     raise Untranslatable(ob, f"unrecognised coercion {src!r}")
 
 
+
+# ------------------------------------------------------------------------------------------------
+# naming and unpacking decisions (struct's field names, the varargs-or-one-list rule, the automatic alias)
+# ------------------------------------------------------------------------------------------------
+
+
+def _module_bindings(mod: ast.Module) -> t.Dict[str, str]:
+    """last module-level binding of every name: 'helper:<name>' (imported from sqlglot.helper), 'def', 'import', 'assign'"""
+    out: t.Dict[str, str] = {}
+    for st in mod.body:
+        if isinstance(st, ast.ImportFrom):
+            for a in st.names:
+                out[a.asname or a.name] = f"helper:{a.name}" if st.module == "sqlglot.helper" else "import"
+        elif isinstance(st, ast.Import):
+            for a in st.names:
+                out[(a.asname or a.name).split(".")[0]] = "import"
+        elif isinstance(st, (ast.FunctionDef, ast.ClassDef)):
+            out[st.name] = "def"
+        elif isinstance(st, ast.Assign):
+            for tg in st.targets:
+                if isinstance(tg, ast.Name):
+                    out[tg.id] = "assign"
+        elif isinstance(st, ast.If):  # `if t.TYPE_CHECKING:` imports are not bound at run time
+            continue
+    return out
+
+
+def _takes_collection(fn: ast.FunctionDef) -> t.Optional[str]:
+    """the parameter documented as 'a column or ONE collection of columns' (annotation mentions Iterable[ColumnOrName])"""
+    a = fn.args
+    for p in list(a.posonlyargs) + list(a.args) + ([a.vararg] if a.vararg else []):
+        if p is not None and p.annotation is not None and "Iterable[ColumnOrName]" in ast.unparse(p.annotation).replace("t.", ""):
+            return p.arg
+    return None
+
+
+def _flattener_kind(name: str, bindings: t.Dict[str, str], ob: str) -> str:
+    b = bindings.get(name)
+    if b == "helper:flatten":
+        return "flatten"
+    if b == "def":
+        return "sqlFunction"  # a module-level function of that name (e.g. the SQL function `flatten`) is what gets called
+    if b is None:
+        return "unbound"
+    raise Untranslatable(ob, f"`{name}` is bound at module level by something this translator does not know ({b})")
+
+
+def _unpack_site(fn: ast.FunctionDef, bindings: t.Dict[str, str], ob: str) -> t.Tuple[str, bool, bool]:
+    """(flattener, the scalar guard names str, the scalar guard names Column) of the one unpacking site of `fn`"""
+    v = fn.args.vararg.arg if fn.args.vararg else None
+    sites = []
+    for node in ast.walk(fn):
+        # X = [list(]F(v)[)] if not isinstance(v[0], (str, Column)) else v
+        if isinstance(node, ast.IfExp) and v is not None:
+            test, body, orelse = node.test, node.body, node.orelse
+            if not (isinstance(test, ast.UnaryOp) and isinstance(test.op, ast.Not) and isinstance(test.operand, ast.Call)):
+                continue
+            call = test.operand
+            if not (isinstance(call.func, ast.Name) and call.func.id == "isinstance" and len(call.args) == 2 and ast.unparse(call.args[0]) == f"{v}[0]"):
+                continue
+            if not (isinstance(orelse, ast.Name) and orelse.id == v):
+                raise Untranslatable(ob, f"{fn.name}: the scalar branch is not the arguments themselves: {ast.unparse(node)!r}")
+            types = [ast.unparse(e) for e in call.args[1].elts] if isinstance(call.args[1], ast.Tuple) else [ast.unparse(call.args[1])]
+            if set(types) - {"str", "Column"}:
+                raise Untranslatable(ob, f"{fn.name}: scalar guard names types this translator does not know: {types}")
+            inner = body
+            if isinstance(inner, ast.Call) and isinstance(inner.func, ast.Name) and inner.func.id == "list" and len(inner.args) == 1:
+                inner = inner.args[0]
+            if not (isinstance(inner, ast.Call) and isinstance(inner.func, ast.Name) and len(inner.args) == 1 and ast.unparse(inner.args[0]) == v and not inner.keywords):
+                raise Untranslatable(ob, f"{fn.name}: the collection branch is not F({v}) / list(F({v})): {ast.unparse(body)!r}")
+            sites.append((_flattener_kind(inner.func.id, bindings, ob), "str" in types, "Column" in types))
+        # ensure_list(col) + list(cols)
+        if isinstance(node, ast.BinOp) and isinstance(node.op, ast.Add):
+            l, r = node.left, node.right
+            first = fn.args.args[0].arg if fn.args.args else None
+            if (
+                isinstance(l, ast.Call) and isinstance(l.func, ast.Name) and l.func.id == "ensure_list" and len(l.args) == 1
+                and first is not None and ast.unparse(l.args[0]) == first
+                and isinstance(r, ast.Call) and isinstance(r.func, ast.Name) and r.func.id == "list" and v is not None and ast.unparse(r.args[0]) == v
+            ):
+                if bindings.get("ensure_list") != "helper:ensure_list":
+                    raise Untranslatable(ob, f"{fn.name}: ensure_list is not sqlglot.helper.ensure_list")
+                sites.append(("ensureList", True, True))
+    if len(sites) != 1:
+        raise Untranslatable(ob, f"{fn.name} takes 'a column or one collection of columns' but has {len(sites)} recognised unpacking sites (expected 1)")
+    return sites[0]
+
+
+def _dispatches(fn: ast.FunctionDef, v: t.Optional[str]) -> t.Dict[str, str]:
+    """engine -> alternative for `if session._is_<engine>: return <alt>(*<v>)` at the top level of fn"""
+    out: t.Dict[str, str] = {}
+    for st in fn.body:
+        if isinstance(st, ast.If) and not st.orelse and len(st.body) == 1 and isinstance(st.body[0], ast.Return):
+            m = re.fullmatch(r"session\._is_([a-z]+)", ast.unparse(st.test))
+            call = st.body[0].value
+            if m and isinstance(call, ast.Call) and isinstance(call.func, ast.Name) and v is not None and [ast.unparse(a) for a in call.args] == [f"*{v}"] and not call.keywords:
+                out[m.group(1)] = call.func.id
+    return out
+
+
+NAMING_CALLS = {"expression.parse_identifier", "exp.parse_identifier", "expression.to_identifier", "exp.to_identifier",
+                "expression.Var", "exp.Var", "expression.Identifier", "exp.Identifier"}
+
+
+def _colname_params(fn: ast.FunctionDef) -> t.Set[str]:
+    a = fn.args
+    ps = list(a.posonlyargs) + list(a.args) + list(a.kwonlyargs) + ([a.vararg] if a.vararg else [])
+    return {p.arg for p in ps if p is not None and p.annotation is not None and "ColumnOrName" in ast.unparse(p.annotation)}
+
+
+def _tainted(fn: ast.FunctionDef, seeds: t.Set[str]) -> t.Set[str]:
+    """names whose value may derive from a ColumnOrName parameter (assignments, loops, comprehensions; fixed point)"""
+    tainted = set(seeds)
+
+    def mentions(node: ast.AST) -> bool:
+        return any(isinstance(n, ast.Name) and n.id in tainted for n in ast.walk(node))
+
+    def names_of(target: ast.AST) -> t.Set[str]:
+        return {n.id for n in ast.walk(target) if isinstance(n, ast.Name)}
+
+    changed = True
+    while changed:
+        changed = False
+        for node in ast.walk(fn):
+            new: t.Set[str] = set()
+            if isinstance(node, ast.Assign) and mentions(node.value):
+                for tg in node.targets:
+                    new |= names_of(tg)
+            elif isinstance(node, (ast.AugAssign, ast.AnnAssign)) and node.value is not None and mentions(node.value):
+                new |= names_of(node.target)
+            elif isinstance(node, ast.For) and mentions(node.iter):
+                new |= names_of(node.target)
+            elif isinstance(node, ast.comprehension) and mentions(node.iter):
+                new |= names_of(node.target)
+            elif isinstance(node, ast.NamedExpr) and mentions(node.value):
+                new |= names_of(node.target)
+            if not new <= tainted:
+                tainted |= new
+                changed = True
+    return tainted
+
+
+def _resolved_loop_vars(fn: ast.FunctionDef) -> t.Set[str]:
+    """loop variables of `for v in L` where `L = [col_func(x) for x in …]` and col_func = get_func_from_session('col')"""
+    colfuncs = {ast.unparse(st.targets[0]) for st in ast.walk(fn) if isinstance(st, ast.Assign) and ast.unparse(st.value) == "get_func_from_session('col')"}
+    lists = set()
+    for st in ast.walk(fn):
+        if isinstance(st, ast.Assign) and isinstance(st.value, ast.ListComp) and len(st.value.generators) == 1:
+            g = st.value.generators[0]
+            if isinstance(g.target, ast.Name) and not g.ifs and any(ast.unparse(st.value.elt) == f"{cf}({g.target.id})" for cf in colfuncs):
+                lists.add(ast.unparse(st.targets[0]))
+    out = set()
+    for st in ast.walk(fn):
+        if isinstance(st, ast.For) and isinstance(st.target, ast.Name) and ast.unparse(st.iter) in lists:
+            reassigned = any(
+                isinstance(x, (ast.Assign, ast.AugAssign)) and any(isinstance(n, ast.Name) and n.id == st.target.id for tg in (x.targets if isinstance(x, ast.Assign) else [x.target]) for n in ast.walk(tg))
+                for x in ast.walk(st)
+            )
+            if not reassigned:
+                out.add(st.target.id)
+    return out
+
+
+def name_sites(mod: ast.Module, modname: str) -> t.List[t.Tuple[str, str]]:
+    """every place where a function makes an identifier / alias / keyword out of TEXT that derives from a ColumnOrName
+    parameter: (function, 'resolved') when the text is `<resolved column>.alias_or_name`; anything else is untranslatable"""
+    ob = "Gen.Functions.nameSites"
+    out: t.List[t.Tuple[str, str]] = []
+    for fn in mod.body:
+        if not isinstance(fn, ast.FunctionDef):
+            continue
+        params = _colname_params(fn)
+        if not params:
+            continue
+        tainted = _tainted(fn, params)
+        resolved_vars = _resolved_loop_vars(fn)
+        colfuncs = {ast.unparse(st.targets[0]) for st in ast.walk(fn) if isinstance(st, ast.Assign) and ast.unparse(st.value) == "get_func_from_session('col')"}
+        resolvers = colfuncs | {"Column.ensure_col", "cls.ensure_col", "col"}
+        for node in ast.walk(fn):
+            if not isinstance(node, ast.Call):
+                continue
+            fname = ast.unparse(node.func)
+            is_alias = isinstance(node.func, ast.Attribute) and node.func.attr == "alias"
+            if fname not in NAMING_CALLS and not is_alias:
+                continue
+            kw = {k.arg: k.value for k in node.keywords}
+            text = node.args[0] if node.args else kw.get("this", kw.get("name"))
+            if text is None or (isinstance(text, ast.Constant) and isinstance(text.value, str)):
+                continue
+            if not any(isinstance(n, ast.Name) and n.id in tainted for n in ast.walk(text)):
+                continue  # not made from a column argument (lambda parameter names, constants built elsewhere)
+            src = ast.unparse(text)
+            ok = False
+            m = re.fullmatch(r"([\w.]+)\((\w+)\)\.alias_or_name", src)
+            if m and m.group(1) in resolvers and m.group(2) in params:
+                ok = True
+            m = re.fullmatch(r"(\w+)\.alias_or_name", src)
+            if m and m.group(1) in resolved_vars:
+                ok = True
+            if not ok:
+                raise Untranslatable(ob, f"{modname}.{fn.name}: {fname}(…) is given the text {src!r}, which derives from a ColumnOrName argument but is not `<resolved column>.alias_or_name`")
+            out.append((fn.name, "resolved"))
+    return out
+
+
+def naming_part(repo: str, engines: t.List[str]) -> t.List[str]:
+    fnmod = parse(repo, "sqlframe/base/functions.py")
+    altmod = parse(repo, "sqlframe/base/function_alternatives.py")
+    decmod = parse(repo, "sqlframe/base/decorators.py")
+    fb, ab = _module_bindings(fnmod), _module_bindings(altmod)
+    ob = "Gen.Functions.unpack"
+
+    # every function documented as taking 'a column or ONE collection of columns'
+    fn_defs = {st.name: st for st in fnmod.body if isinstance(st, ast.FunctionDef)}
+    alt_defs = {st.name: st for st in altmod.body if isinstance(st, ast.FunctionDef)}
+    sites: t.List[t.Tuple[str, str, t.List[str], str, bool, bool]] = []
+    alt_used: t.Set[str] = set()
+    for name, fn in fn_defs.items():
+        if _takes_collection(fn) is None:
+            continue
+        v = fn.args.vararg.arg if fn.args.vararg else None
+        disp = _dispatches(fn, v)
+        for e, alt in disp.items():
+            if e not in engines:
+                raise Untranslatable(ob, f"{name}: dispatch on an unknown engine flag _is_{e}")
+            if alt not in alt_defs or _takes_collection(alt_defs[alt]) is None:
+                raise Untranslatable(ob, f"{name}: the alternative {alt} for {e} is not a function that takes a collection")
+            k, gs, gc = _unpack_site(alt_defs[alt], ab, ob)
+            sites.append((name, alt, [e], k, gs, gc))
+            alt_used.add(alt)
+        k, gs, gc = _unpack_site(fn, fb, ob)
+        sites.append((name, name, [e for e in engines if e not in disp], k, gs, gc))
+    mentioned = {n.id for n in ast.walk(fnmod) if isinstance(n, ast.Name)} | {a.name for n in ast.walk(fnmod) if isinstance(n, ast.ImportFrom) for a in n.names}
+    for name, fn in alt_defs.items():
+        if _takes_collection(fn) is not None and name not in alt_used:
+            if name in mentioned:
+                raise Untranslatable(ob, f"function_alternatives.{name} takes a collection and functions.py mentions it, but not as a recognised engine dispatch")
+            k, gs, gc = _unpack_site(fn, ab, ob)
+            sites.append((name, name, [], k, gs, gc))  # not reachable from any public function
+
+    # struct(): which text names a field, and what the field's value is
+    ob = "Gen.Functions.struct"
+    fn = find_func(fnmod.body, "struct")
+    peqs = [n for n in ast.walk(fn) if isinstance(n, ast.Call) and ast.unparse(n.func) == "expression.PropertyEQ"]
+    if len(peqs) != 1:
+        raise Untranslatable(ob, f"{len(peqs)} PropertyEQ constructions (expected 1)")
+    kw = {k.arg: k.value for k in peqs[0].keywords}
+    this, value = kw.get("this"), kw.get("expression")
+    if not (isinstance(this, ast.Call) and ast.unparse(this.func) == "expression.parse_identifier" and len(this.args) == 1):
+        raise Untranslatable(ob, f"the field name is not expression.parse_identifier(<text>, ...): {ast.unparse(this) if this else None!r}")
+    text = this.args[0]
+    # the loop: `columns = [col_func(x) for x in <args>]; for column in columns:` (col_func = get_func_from_session('col'))
+    loops = [n for n in ast.walk(fn) if isinstance(n, ast.For) and any(p is peqs[0] for p in ast.walk(n))]
+    if len(loops) != 1 or not isinstance(loops[0].target, ast.Name) or not isinstance(loops[0].iter, ast.Name):
+        raise Untranslatable(ob, "the fields are not built in one `for <column> in <columns>` loop")
+    var, coll = loops[0].target.id, loops[0].iter.id
+    assigns = [st for st in fn.body if isinstance(st, ast.Assign) and ast.unparse(st.targets[0]) == coll]
+    getcol = [st for st in fn.body if isinstance(st, ast.Assign) and ast.unparse(st.value) == "get_func_from_session('col')"]
+    resolved_all = False
+    if len(assigns) == 1 and isinstance(assigns[0].value, ast.ListComp) and len(getcol) == 1:
+        lc = assigns[0].value
+        cf = ast.unparse(getcol[0].targets[0])
+        g = lc.generators[0]
+        if len(lc.generators) == 1 and not g.ifs and isinstance(g.target, ast.Name) and ast.unparse(lc.elt) == f"{cf}({g.target.id})":
+            resolved_all = True
+    if not resolved_all:
+        raise Untranslatable(ob, f"`{coll}` is not `[col_func(x) for x in <arguments>]` with col_func = get_func_from_session('col')")
+    if any(isinstance(st, (ast.Assign, ast.AugAssign)) and any(isinstance(n, ast.Name) and n.id == var for n in ast.walk(st.targets[0] if isinstance(st, ast.Assign) else st.target)) for st in ast.walk(loops[0])):
+        raise Untranslatable(ob, f"the loop variable `{var}` is reassigned inside the loop")
+    if ast.unparse(text) == f"{var}.alias_or_name":
+        field_src = "resolved"
+    else:
+        raise Untranslatable(ob, f"the field name text is {ast.unparse(text)!r}, not `{var}.alias_or_name` of the resolved column")
+    if value is None or ast.unparse(value) != f"{var}.column_expression":
+        raise Untranslatable(ob, f"the field value is {ast.unparse(value) if value else None!r}, not `{var}.column_expression`")
+
+    # func_metadata.wrapper: the automatic alias
+    ob = "Gen.Functions.autoAlias"
+    outer = find_func(decmod.body, "func_metadata")
+    wrappers = [n for n in ast.walk(outer) if isinstance(n, ast.FunctionDef) and n.name == "wrapper"]
+    if len(wrappers) != 1:
+        raise Untranslatable(ob, "wrapper not found")
+    w = wrappers[0]
+    calls = [n for n in ast.walk(w) if isinstance(n, ast.Call) and ast.unparse(n) == "func(*args, **kwargs)"]
+    inside = {id(x) for c in calls for x in ast.walk(c)}
+    raw_uses = [n for n in ast.walk(w) if isinstance(n, ast.Name) and n.id in ("args", "kwargs") and id(n) not in inside]
+    result_only = len(calls) == 1 and not raw_uses
+    no_alias: t.Optional[t.List[str]] = None
+    for st in ast.walk(w):
+        if isinstance(st, ast.Assign) and ast.unparse(st.targets[0]) == "funcs_to_not_auto_alias" and isinstance(st.value, ast.List):
+            no_alias = [e.value for e in st.value.elts if isinstance(e, ast.Constant) and isinstance(e.value, str)]
+            if len(no_alias) != len(st.value.elts):
+                raise Untranslatable(ob, "funcs_to_not_auto_alias is not a list of string constants")
+    if no_alias is None:
+        raise Untranslatable(ob, "funcs_to_not_auto_alias not found")
+    fmt = [n for n in ast.walk(w) if isinstance(n, ast.JoinedStr) and ast.unparse(n) == "f'{func.__name__}__{col_name}__'"]
+    if len(fmt) != 1:
+        raise Untranslatable(ob, "the alias is not f'{func.__name__}__{col_name}__'")
+    finds = [ast.unparse(n) for n in ast.walk(w) if isinstance(n, ast.Call) and ast.unparse(n.func).endswith(".find")]
+    if finds != ["result.column_expression.find(exp.Identifier)", "result.column_expression.find(exp.Literal)"]:
+        raise Untranslatable(ob, f"the alias text is not read from the RESULT's first Identifier, else first Literal: {finds}")
+
+    nsites = name_sites(fnmod, "functions") + name_sites(altmod, "function_alternatives")
+
+    out = []
+    out.append("/-- which function a `cols` collection is flattened with: sqlglot.helper.flatten (lists are spliced, `str` and Column")
+    out.append("    are not iterable), sqlglot.helper.ensure_list on the first parameter, a module-level SQL function of that name")
+    out.append("    (its result, a Column, is not iterable), or a name that is not bound in the module at all -/")
+    out.append("inductive Flattener | flatten | ensureList | sqlFunction | unbound")
+    out.append("  deriving DecidableEq, Repr, Inhabited")
+    out.append("")
+    out.append("/-- one 'a column or ONE collection of columns' site: the public function, the function that holds the site, the")
+    out.append("    engines that reach it, the flattener, and whether `isinstance(cols[0], (str, Column))` names str / Column -/")
+    out.append("structure UnpackSite where")
+    out.append("  api : String")
+    out.append("  impl : String")
+    out.append("  engines : List Engine")
+    out.append("  flattener : Flattener")
+    out.append("  guardStr : Bool")
+    out.append("  guardColumn : Bool")
+    out.append("  deriving DecidableEq, Repr")
+    out.append("")
+    out.append("def unpackSites : List UnpackSite := [")
+    out.append(",\n".join(f"  ⟨{lean_str(a)}, {lean_str(i)}, [{', '.join('.' + e for e in es)}], .{k}, {_b(gs)}, {_b(gc)}⟩" for a, i, es, k, gs, gc in sites))
+    out.append("]")
+    out.append("")
+    out.append("/-- the text a struct field is named by: the resolved column's `alias_or_name`, or the caller's raw argument -/")
+    out.append("inductive NameSource | resolved | raw")
+    out.append("  deriving DecidableEq, Repr, Inhabited")
+    out.append(f"def structFieldName : NameSource := .{field_src}")
+    out.append("/-- every place in functions.py / function_alternatives.py where an identifier, alias or keyword is made out of TEXT")
+    out.append("    that derives from a ColumnOrName argument (function, source of the text) -/")
+    out.append("def nameSites : List (String × NameSource) := [" + ", ".join(f"({lean_str(f)}, .{k})" for f, k in nsites) + "]")
+    out.append("/-- `func_metadata.wrapper` reads `args` / `kwargs` only to call the function: the automatic alias (and the whole")
+    out.append("    result) is a function of the function's RESULT -/")
+    out.append(f"def autoAliasFromResultOnly : Bool := {_b(result_only)}")
+    out.append("def noAutoAlias : List String := [" + ", ".join(lean_str(x) for x in no_alias) + "]")
+    out.append("")
+    return out
+
+
 def static_part(repo: str) -> str:
     colmod = parse(repo, "sqlframe/base/column.py")
     fnmod = parse(repo, "sqlframe/base/functions.py")
@@ -231,6 +572,7 @@ def static_part(repo: str) -> str:
     out.append("/-- Python operator methods of Column and whether they use `inverse_binary_op` -/")
     out.append("def operatorMethods : List (String × Bool) := [" + ", ".join(f"({lean_str(n)}, {_b(inv)})" for n, inv in ops) + "]")
     out.append("")
+    out.extend(naming_part(repo, engines))
     return "\n".join(out) + "\n"
 
 
